@@ -3,6 +3,7 @@ package props
 import (
 	"fmt"
 	"go/ast"
+	"go/token"
 	"go/types"
 	"os"
 	"path/filepath"
@@ -178,20 +179,50 @@ func c06(p *an.Prog, r *an.R, tier string) {
 		if tokName == "" {
 			return true
 		}
+		seen := map[string]bool{}
+		add := func(s string) {
+			if !seen[s] {
+				seen[s] = true
+				accepted[tokName] = append(accepted[tokName], s)
+			}
+		}
 		for _, st := range cc.Body {
-			sw, ok := st.(*ast.SwitchStmt)
-			if !ok {
-				continue
-			}
-			id, ok := sw.Tag.(*ast.Ident)
-			if !ok || id.Name != "text" {
-				continue
-			}
-			for _, c := range sw.Body.List {
-				for _, e := range c.(*ast.CaseClause).List {
-					if s, ok := an.StringConst(info, e); ok {
-						accepted[tokName] = append(accepted[tokName], s)
+			if sw, ok := st.(*ast.SwitchStmt); ok {
+				if id, ok := sw.Tag.(*ast.Ident); ok && id.Name == "text" {
+					for _, c := range sw.Body.List {
+						for _, e := range c.(*ast.CaseClause).List {
+							if s, ok := an.StringConst(info, e); ok {
+								add(s)
+							}
+						}
 					}
+				}
+				continue
+			}
+			// the same enumeration written as comparisons: `if text != "yes" && text != "no" {error}`,
+			// `if text == "yes" {..} else if text == "no" {..} else {error}`
+			if is, ok := st.(*ast.IfStmt); ok {
+				var conds []ast.Expr
+				for cur := is; cur != nil; {
+					conds = append(conds, cur.Cond)
+					next, _ := cur.Else.(*ast.IfStmt)
+					cur = next
+				}
+				for _, c := range conds {
+					ast.Inspect(c, func(m ast.Node) bool {
+						be, ok := m.(*ast.BinaryExpr)
+						if !ok || (be.Op != token.EQL && be.Op != token.NEQ) {
+							return true
+						}
+						for _, pr := range [][2]ast.Expr{{be.X, be.Y}, {be.Y, be.X}} {
+							if id, ok := ast.Unparen(pr[0]).(*ast.Ident); ok && id.Name == "text" {
+								if s, ok := an.StringConst(info, pr[1]); ok {
+									add(s)
+								}
+							}
+						}
+						return true
+					})
 				}
 			}
 		}
